@@ -157,6 +157,12 @@ def run_program(res, r, kind):
         call = bytes([0xFE])
         ret = bytes([0x01])
         mem.load_bytes(0xFFFFA, bytes([t & 0xFF, (t >> 8) & 0xFF, (t >> 16) & 0x0F]))
+    # any instruction may carry a PRE byte (it then counts towards the instruction's length): calls and returns too
+    from ..enc import PREFIXES
+    if r.random() < 0.3:
+        call = bytes([r.choice(PREFIXES[1:])]) + call
+    if r.random() < 0.2:
+        ret = bytes([r.choice(PREFIXES[1:])]) + ret
     body = b""
     nested = None
     for _ in range(r.randrange(0, 7)):
@@ -180,6 +186,8 @@ def run_program(res, r, kind):
     emu.regs.set(RegisterName.U, U0)
     emu.regs.set(RegisterName.F, F0)
     mem.poke(0x100000 + 0xFB, IMR0)
+    for off in (0xEC, 0xED, 0xEE):
+        mem.poke(0x100000 + off, r.choice((0, 0, r.randrange(256))))
     emu.regs.set(RegisterName.PC, base)
     resume = (base + len(call)) & 0xFFFFF
     steps = 0
